@@ -63,10 +63,32 @@ def scenario(args):
     jobs.append(net.job_mesh(names[0], "join", lambda o: o.renew_address(1), timeout_ms=1000))
     rel = rng.choice(J)
     asker = rng.choice([x for x in J if x != rel] or [names[0]])
+    if nj >= 6 and seed % 2 == 0:
+        # a relay with children leaves and its orphans renew: pick, at run time, a joiner that is some node's parent
+        def pick_parent(ns_):
+            addrs = {nm: o.node_address for nm, o in ns_.objs.items()}
+            for nm, a in addrs.items():
+                if nm != names[0] and a != 0o4444 and any(b != 0o4444 and b != a and b > 7 and (b & ((1 << (3 * (len(oct(b)) - 3))) - 1)) == a
+                                                         for b in addrs.values()):
+                    return nm
+            return J[0]
+
+        def pick_orphan(ns_):
+            addrs = {nm: o.node_address for nm, o in ns_.objs.items()}
+            held = set(addrs.values())
+            for nm, b in addrs.items():
+                if b != 0o4444 and b > 7 and (b & ((1 << (3 * (len(oct(b)) - 3))) - 1)) not in held:
+                    return nm
+            return J[-1]
+        jobs.append(net.job_mesh(pick_parent, "release", lambda o: o.release_address(), budget_ms=8000))
+        jobs.append(net.job_mesh(pick_orphan, "join", lambda o: o.renew_address(7.5), timeout_ms=7500, budget_ms=12000))
     jobs.append(net.job_mesh(rel, "release", lambda o: o.release_address(), budget_ms=8000))
     jobs.append(net.job_mesh(rel, "check_connection", lambda o: o.check_connection(), budget_ms=8000))
     jobs.append(net.job_mesh(rel, "lookup_address", lambda o, i=idof[asker]: o.lookup_address(i), arg=idof[asker]))
     jobs.append(net.job_mesh(asker, "lookup_address", lambda o, i=idof[rel]: o.lookup_address(i), arg=idof[rel]))
+    # nodes that stayed connected (some may have lost their parent with `rel`) renew too: a renewal must work from any state
+    for other in [x for x in J if x != rel][:3]:
+        jobs.append(net.job_mesh(other, "join", lambda o: o.renew_address(7.5), timeout_ms=7500, budget_ms=12000))
     jobs.append(net.job_mesh(rel, "join", lambda o: o.renew_address(7.5), timeout_ms=7500, budget_ms=12000))
     jobs.append(net.job_mesh_send(asker, idof[rel], 2, b"after-rejoin", budget_ms=8000))
     tr = ns.run(jobs, scripts=scripts)
